@@ -4,7 +4,7 @@ environment index pairing. Energies, convergence and canonical form of results a
 not decided."""
 import ast
 
-from ..core import (AnalysisError, local_defs, body_nodes, call_name, dotted, is_self_attr, key_text, names_in,
+from ..core import (AnalysisError, kwarg, local_defs, body_nodes, call_name, dotted, is_self_attr, key_text, names_in,
                     params, parent, stmts_of, unparse)
 from ..dtable import run_paths, subst
 from ..dtable import _val as dval
@@ -450,6 +450,12 @@ def run(prog, rep, tier):
     rep.rule('LABEL-known', 'typestate of leg-label sets: literal labels used on a local tensor '
              'whose complete label set is known (literal transposition, contractions) exist on it')
     check_labels(prog, rep, ['tenpy/algorithms/mps_common.py', 'tenpy/algorithms/dmrg.py', 'tenpy/algorithms/vumps.py'])
+    rep.rule('HOOKS-mix-side', 'one-site fallback calls of mix_and_decompose_2site run under the flag '
+             'that fits their move_right argument')
+    if check_mix_sides(prog, rep) < 4:
+        raise AnalysisError('HOOKS-mix-side: fewer than 4 one-site fallback calls')
+    if check_to_mps_canonical(prog, rep) < 1:
+        raise AnalysisError('HOOKS-final-canonical: return of UniformMPS.to_MPS not found')
     return rep.finish(
         level='other',
         explanation='Protocol facts of the sweep framework decided per engine class: hook keys '
@@ -732,4 +738,79 @@ def check_final_canonical(prog, rep):
                           '`%s` that guards psi.canonical_form(): a poorly converged infinite '
                           'run returns a non-canonical state' %
                           (key_text(a)[:60], unparse(final.test)), a.lineno)
+    return n
+
+
+# ------------------------------------------------------------------ HOOKS-mix-side / final canonical
+def check_mix_sides(prog, rep):
+    """HOOKS-mix-side: Mixer.mix_and_decompose_2site falls back to mix_and_decompose_1site. The
+    docstring fixes the meaning: with `mix_left` the LEFT tensor U is the isometric one, i.e. the
+    left site is expanded in a right move (`move_right=True`, site i0); with `mix_right` the right
+    tensor VH, in a left move (`move_right=False`, site i0 + 1). Every one-site call is made under
+    a branch condition that fits its `move_right` argument (decision over the two flags)."""
+    m = prog.module('tenpy/algorithms/mps_common.py')
+    f = m.func('Mixer.mix_and_decompose_2site')
+    want = {'mix_left': True, 'mix_right': False}
+    n = 0
+    for c in ast.walk(f):
+        if not (isinstance(c, ast.Call) and isinstance(c.func, ast.Attribute) and
+                c.func.attr == 'mix_and_decompose_1site'):
+            continue
+        mr = kwarg(c, 'move_right')
+        if not isinstance(mr, ast.Constant):
+            continue
+        n += 1
+        gs = {t: p for t, p, _ in guards_of(f, c)}
+        # the flags known to be true at this call
+        true_flags = set()
+        for t, p in gs.items():
+            if p:
+                for nm in want:
+                    if t == nm or t.startswith(nm + ' and') or t.endswith('and ' + nm):
+                        true_flags.add(nm)
+        need = 'mix_left' if mr.value else 'mix_right'
+        ok = need in true_flags
+        rep.instance('HOOKS-mix-side', {'call': unparse(c)[:70], 'move_right': mr.value,
+                                        'flags_true_here': sorted(true_flags), 'ok': ok})
+        if not ok:
+            rep.violation('HOOKS-mix-side', m, 'Mixer.mix_and_decompose_2site',
+                          'side:move_right=%s' % mr.value,
+                          '`%s` (move_right=%s expands the %s site) runs where only %s is known to '
+                          'hold: the wrong side is expanded and a non-isometric tensor is stored as '
+                          'the canonical one' % (unparse(c)[:60], mr.value,
+                                                 'left' if mr.value else 'right',
+                                                 sorted(true_flags)), c.lineno)
+    return n
+
+
+def check_to_mps_canonical(prog, rep):
+    """HOOKS-final-canonical (VUMPS): UniformMPS.to_MPS builds the returned state from (AR, S);
+    AL C = C AR holds only approximately, so the result is canonical only after canonical_form().
+    Every path to a `return` of that state passes `<state>.canonical_form()` (must-precede on the
+    CFG; the informational `check_overlap` option must not gate it)."""
+    from ..cfg import CFG
+    m = prog.module('tenpy/networks/uniform_mps.py')
+    f = m.func('UniformMPS.to_MPS')
+    cfg = CFG(f)
+    n = 0
+    for r in stmts_of(f):
+        if not (isinstance(r, ast.Return) and isinstance(r.value, ast.Name)):
+            continue
+        v = r.value.id
+        n += 1
+
+        def canon(nd, v=v):
+            st = nd.stmt
+            return st is not None and not isinstance(st, (ast.If, ast.For, ast.While, ast.Try,
+                                                          ast.With)) and any(
+                isinstance(c, ast.Call) and unparse(c.func) == v + '.canonical_form'
+                for c in ast.walk(st))
+        ok = cfg.dominators_like_before(r, canon)
+        rep.instance('HOOKS-final-canonical', {'function': 'UniformMPS.to_MPS', 'returned': v,
+                                               'canonical_form_on_every_path': ok})
+        if not ok:
+            rep.violation('HOOKS-final-canonical', m, 'UniformMPS.to_MPS', 'uncanonical-return:' + v,
+                          'a path reaches `return %s` without `%s.canonical_form()`: the iMPS '
+                          'handed back by VUMPS is labelled canonical but AL C = C AR only holds '
+                          'approximately (norm_test ~ 1e-3 after few sweeps)' % (v, v), r.lineno)
     return n
